@@ -10,13 +10,16 @@ props = os.environ.get("VERIF_SELFTEST_PROPS", DEFAULT).split(",")
 seeds = int(os.environ.get("VERIF_SELFTEST_SEEDS", "8" if tier == "quick" else "40"))
 # C13's seeded double-fault mode depends on Go map iteration order inside OnExecute (which of two planned faults is
 # met first); its single-fault matrix does not, and is what the self-test runs.
-PARAMS = {"C13": "mode=matrix,mw=0,mW=1", "C16": "mode=matrix,mw=0,mW=1"}
+# C12 runs two generations at the same time in a quarter of its runs; which instance's session mutex a contribution
+# meets then depends on the same map iteration order, so those runs are switched off for the self-test.
+PARAMS = {"C13": "mode=matrix,mw=0,mW=1", "C16": "mode=matrix,mw=0,mW=1", "C12": "noconc=1"}
 procs_list = [1, 4, 16] if tier != "quick" else [1, 16]
 base = "/dev/shm" if os.path.isdir("/dev/shm") else tempfile.gettempdir()
 work = tempfile.mkdtemp(prefix="verif-selftest-", dir=os.environ.get("VERIF_SCRATCH", base))
 bad = 0
 try:
     for prop in props:
+        bad_before = bad
         jobs = []
         for gp in procs_list:
             for rep in range(2 if tier != "quick" else 1):
@@ -43,7 +46,7 @@ try:
                 diff = [s for s in ref if ref[s] != d["hashes"].get(s)]
                 print("selftest %s: event-log hashes differ between processes for seeds %s" % (prop, diff[:10]))
                 bad += 1
-        print("selftest %s: %d seeds x %d processes: %s" % (prop, seeds, len(jobs), "FAILED" if bad else "identical"))
+        print("selftest %s: %d seeds x %d processes: %s" % (prop, seeds, len(jobs), "FAILED" if bad > bad_before else "identical"))
 finally:
     import shutil
     shutil.rmtree(work, ignore_errors=True)
